@@ -1125,6 +1125,12 @@ func runC08(res *Result, tier string, seed int64, replay string) {
 			`<mjml/>`, `<mjml><mj-head><mj-title>t</mj-title></mj-head></mjml>`,
 			`<mjml><mj-body><mj-section><mj-column><mj-text>one</mj-text></mj-column></mj-section></mj-body><mj-body><mj-section><mj-column><mj-text>two</mj-text></mj-column></mj-section></mj-body></mjml>`,
 			`<mj-wrapper><mj-section><mj-column><mj-text>w</mj-text></mj-column></mj-section></mj-wrapper>`, `<div>not mjml at all</div>`,
+			// a top-level element written twice: whichever of the two a path reads (the first head, the first body), every path reads
+			// the same one — for the definitions, the title / preview / styles / fonts / breakpoint alike
+			`<mjml><mj-head><mj-title>one</mj-title></mj-head><mj-head><mj-attributes><mj-all color="#ff0000"/><mj-body background-color="#123456"/><mj-text font-size="30px"/><mj-class name="k" align="right"/></mj-attributes><mj-title>two</mj-title><mj-preview>p2</mj-preview><mj-style>.x{color:red}</mj-style><mj-style inline="inline">.k{margin:0}</mj-style><mj-breakpoint width="300px"/><mj-font name="Zeta" href="https://z.example/css"/></mj-head><mj-body><mj-section><mj-column><mj-text mj-class="k" css-class="k" font-family="Zeta">two heads</mj-text></mj-column></mj-section></mj-body></mjml>`,
+			`<mjml><mj-head/><mj-head><mj-attributes><mj-class name="k" color="#00ff00"/><mj-section background-color="#eeeeee"/></mj-attributes><mj-font name="Zeta" href="https://z.example/css"/></mj-head><mj-body><mj-section><mj-column><mj-text mj-class="k" font-family="Zeta">empty head first</mj-text></mj-column></mj-section></mj-body></mjml>`,
+			`<mjml><mj-body><mj-section><mj-column><mj-text mj-class="k">heads behind the body</mj-text></mj-column></mj-section></mj-body><mj-head><mj-attributes><mj-text color="#010203"/></mj-attributes></mj-head><mj-head><mj-attributes><mj-text color="#040506" padding="1px"/><mj-class name="k" font-size="9px"/></mj-attributes><mj-title>late</mj-title></mj-head></mjml>`,
+			`<mjml><mj-head><mj-attributes><mj-all font-family="Georgia"/></mj-attributes></mj-head><mj-body background-color="#111111"><mj-section><mj-column><mj-text>first body</mj-text></mj-column></mj-section></mj-body><mj-head><mj-attributes><mj-all font-family="Courier"/></mj-attributes></mj-head><mj-body background-color="#222222" width="500px"><mj-section><mj-column><mj-text>second body</mj-text></mj-column></mj-section></mj-body></mjml>`,
 		}
 		for d := range frags {
 			get := func(ops ...string) apiObs {
